@@ -57,9 +57,19 @@ Ltac sym_atoms2 f tac :=
       end
   end.
 
+(* structural congruence first: model and code mostly perform the same operations in the same order, so that
+   the two sides are equal node by node; `ring` is only needed below the first node where they differ *)
+Ltac sym_cong :=
+  first
+  [ reflexivity
+  | solve [ apply f_equal2; sym_cong ]
+  | solve [ apply f_equal; sym_cong ]
+  | ring ].
+
 Ltac sym_eq O T :=
   first
   [ reflexivity
+  | solve [ sym_cong ]
   | ring
   | progress (sym_atoms1 (inv O) ltac:(sym_eq O T); sym_atoms1 (sqrt T) ltac:(sym_eq O T);
               sym_atoms1 (sin T) ltac:(sym_eq O T); sym_atoms1 (cos T) ltac:(sym_eq O T);
